@@ -31,6 +31,11 @@ func (db *DB) repairCompactions() error {
 			return err
 		}
 
+		// the walk visits the database folder itself first: its own name is the user's business and says nothing
+		if p == db.basePath {
+			return nil
+		}
+
 		if info.IsDir() && strings.HasPrefix(info.Name(), SSTableCompactionPathPrefix) {
 			err := func() (err error) {
 				metaPath := filepath.Join(p, CompactionFinishedSuccessfulFileName)
@@ -123,6 +128,11 @@ func (db *DB) reconstructSSTables() error {
 	err := filepath.Walk(db.basePath, func(path string, info os.FileInfo, err error) error {
 		if err != nil {
 			return err
+		}
+
+		// the database folder itself is not a table, whatever it is called
+		if path == db.basePath {
+			return nil
 		}
 
 		if info.IsDir() && strings.HasPrefix(info.Name(), SSTablePrefix) {
